@@ -90,6 +90,27 @@ def run_c17(ctx):
     if len(names) < 2:
         ctx.inconclusive.append("fewer than two transcripts to compare")
     ctx.add_result(res)
+    # verdicts of every build on the same variants of the same messages (tampered, truncated, other root sets) must
+    # be identical between builds
+    vs = {}
+    for cfg in bins:
+        f = os.path.join(d, "verdicts-%s.txt" % cfg)
+        if os.path.exists(f):
+            vs[cfg] = open(f).read().splitlines()
+    res = {"_step": "verdicts-across-builds", "evaluations": 0, "strata_all": [], "violations": [], "samples": []}
+    names = sorted(vs)
+    for i, a in enumerate(names):
+        for b in names[i + 1:]:
+            res["evaluations"] += len(vs[a])
+            res["strata_all"].append("verdict-pair|%s|%s" % (a, b))
+            if vs[a] != vs[b]:
+                diff = [(x, y) for x, y in zip(vs[a], vs[b]) if x != y][:4]
+                kinds = sorted(set(":".join(x.split("|")[2:-1]) for x, y in diff)) if diff else ["length"]
+                res["violations"].append({"sig": "verdicts:%s-vs-%s:differ:%s" % (a, b, kinds[0]), "count": len(diff) or 1,
+                                          "details": [{a: x, b: y} for x, y in diff] or [{"lines": [len(vs[a]), len(vs[b])]}]})
+    if len(names) < 2:
+        ctx.inconclusive.append("fewer than two verdict files to compare")
+    ctx.add_result(res)
 
 
 def run_c11(ctx):
